@@ -163,6 +163,10 @@ carquet_status_t carquet_schema_add_column(
         elem->logical_type = *logical_type;
     }
 
+    elem->max_def_level = (repetition == CARQUET_REPETITION_OPTIONAL ||
+                           repetition == CARQUET_REPETITION_REPEATED) ? 1 : 0;
+    elem->max_rep_level = (repetition == CARQUET_REPETITION_REPEATED) ? 1 : 0;
+
     schema->num_elements++;
     schema->elements[0].num_children++;
 
@@ -293,13 +297,14 @@ carquet_field_repetition_t carquet_schema_node_repetition(const carquet_schema_n
 int16_t carquet_schema_node_max_def_level(const carquet_schema_node_t* node) {
     /* node is nonnull per API contract */
     const parquet_schema_element_t* elem = (const parquet_schema_element_t*)node;
-    return (elem->repetition_type == CARQUET_REPETITION_OPTIONAL) ? 1 : 0;
+    /* Levels accumulate along the path from the root, see compute_levels() */
+    return elem->max_def_level;
 }
 
 int16_t carquet_schema_node_max_rep_level(const carquet_schema_node_t* node) {
     /* node is nonnull per API contract */
     const parquet_schema_element_t* elem = (const parquet_schema_element_t*)node;
-    return (elem->repetition_type == CARQUET_REPETITION_REPEATED) ? 1 : 0;
+    return elem->max_rep_level;
 }
 
 int32_t carquet_schema_node_type_length(const carquet_schema_node_t* node) {
